@@ -105,7 +105,14 @@ impl<'a> Frags<'a> {
             }
             f.start.push(pos);
             f.wend.push(we);
-            f.w.push(wd.width as u64);
+            // measured by the harness when the word is clean, so that a wrong
+            // cached width cannot make a non-maximal line look maximal
+            let w = if crate::scan::is_clean(wd.word) {
+                crate::scan::dw(wd.word)
+            } else {
+                wd.width
+            };
+            f.w.push(w as u64);
             f.ws.push(wd.whitespace.len() as u64);
             f.p.push(wd.penalty.len() as u64);
             f.pen.push(wd.penalty);
